@@ -104,7 +104,9 @@ def pins_for(real, vi, beh, upto=None):
                         for (idx, nd, f, ty) in rows:
                             pins.put(idx, beh['frac'][i][o] / a['fden'])
                             hit = True
-                if not hit and beh['frac'][i][o] != 0:
+                od = a['orders'][o]
+                covers = any(od['s'] <= cfg['tp'][s0] < od['e'] for s0 in range(cfg['T']))
+                if not hit and beh['frac'][i][o] != 0 and covers:     # an order covering no step is inert: nothing to pin
                     pins.missing.append((i, 'order', o))
             continue
         for s in range(1, n + 1):
